@@ -19,6 +19,7 @@ def Ren.p (ρ : Ren n m) : P n → P m
   | .extend p v e => .extend (ρ.p p) (ρ.f v) (ρ.pt e)
   | .graph t p => .graph (ρ.pt t) (ρ.p p)
   | .values rows => .values (rows.map ρ.push)
+  | .sub pv p => .sub (pv.map ρ.f) (ρ.p p)
 
 theorem Ren.ptVars (ρ : Ren n m) (t : PT n) : ptVars (ρ.pt t) = (ptVars t).map ρ.f := by
   cases t <;> rfl
@@ -40,6 +41,7 @@ theorem Ren.vars_p (ρ : Ren n m) (q : P n) : (ρ.p q).vars = q.vars.map ρ.f :=
   | extend p v e ih => simp only [Ren.p, P.vars, ih, List.map_append, List.map_cons, List.map_nil]
   | graph t p ih => simp only [Ren.p, P.vars, ih, ρ.ptVars, List.map_append]
   | values rows => rfl
+  | sub pv p ih => simp only [Ren.p, P.vars, ih, List.map_append]
 
 theorem Ren.noJoin_p (ρ : Ren n m) (q : P n) : (ρ.p q).noJoin = q.noJoin := by
   induction q with
@@ -52,6 +54,7 @@ theorem Ren.noJoin_p (ρ : Ren n m) (q : P n) : (ρ.p q).noJoin = q.noJoin := by
   | extend p v e ih => simpa only [Ren.p, P.noJoin] using ih
   | graph t p ih => simpa only [Ren.p, P.noJoin] using ih
   | values rows => rfl
+  | sub pv p ih => simpa only [Ren.p, P.noJoin] using ih
 
 /-! ### the dynamic sort -/
 
@@ -237,5 +240,14 @@ theorem Ren.evalTD_push (ρ : Ren n m) (ds : DSet) (init : Row n) (q : P n) :
     congr 1
     funext r
     cases compat r μ <;> rfl
+  | sub pv p ih =>
+    intro g μ
+    simp only [Ren.p, evalTD, ih, List.map_map]
+    rw [← ρ.joinBag_push]
+    simp only [List.map_map, List.map_cons, List.map_nil]
+    congr 1
+    apply List.map_congr_left
+    intro x _
+    exact ρ.project_push pv x
 
 end RV.C15
